@@ -34,10 +34,7 @@ EXPECT_MISSED = {
     "C01-h": "skip-ahead in the MINUTELY filler: `M = 59 - (59 - M) % inter` keeps the INTERVAL phase only when INTERVAL divides 60 — an arithmetic identity",
     "C09-g": "congruence pre-check taken modulo gcd(INTERVAL, 6) instead of 12 — number theory of which months a step reaches (same area as C09-c)",
     "C17-g": "bias constant 384 -> 34 in the business-day arithmetic (both are -1 mod 5 and 7; the bias also keeps the sum non-negative) — value arithmetic",
-    # seventh generation: missed as delivered and not strengthened in the time that was left (4 of 24); the first two have a structural
-    # handle (sibling parsers of one parameter list; the two fold tests agreeing on TAB)
-    "C02-o": "snarf_dtlst() ends a parameter at ':' only (strchr for strpbrk): no rule compares the parameter scanners of the RDATE/EXDATE lists with those of DTSTART",
-    "C10-p": "the re-examination of a stashed line at the start of a piece lost its TAB half: R10.5/R10.7 walk the escape copier, not the fold test of _ical_pull()",
+    # seventh generation: missed as delivered and not strengthened in the time that was left (2 of 24)
     "C05-p": "separator of the 32nd RDATE of a line (',' for a line end) — the writer's loop arithmetic over a list longer than one line; value-level",
     "C18-p": "dt_strp() bounds the second hour digit after a 2 by 3 instead of 4: the instant reader is not walked over its digit ranges (R18.8/R18.9 walk the duration forms)",
     "C01-k": "MLY_TRIES bail-out after a leap year of fruitless minutes in the minutely filler — whether a rule's next match lies beyond the bound is a numerical question (the yearly and monthly fillers have such bounds in the unchanged tree)",
